@@ -309,11 +309,35 @@ func (rp *Replayer) Replay(c *Case, keep bool) (final string, orig string) {
 			return "", orig
 		}
 		want := 1
+		role := ""
+		if c.Type == "deb" {
+			// one signature per role ever signed; this round's is the one in its role's slot
+			roles := map[bool]bool{}
+			for _, prev := range c.Rounds[:i+1] {
+				if prev.Outcome == "ok" {
+					roles[prev.Alt] = true
+				}
+			}
+			want = len(roles)
+			role = "builder"
+			if rd.Alt {
+				role = "origin"
+			}
+		}
 		if len(sigs) != want {
-			rp.fail(c, "signature-count", x, "round %d: %d signatures present, re-signing must replace (expected %d)", i+1, len(sigs), want)
+			rp.fail(c, "signature-count", x, "round %d: %d signatures present, expected %d (re-signing replaces the signature - of the same role, where roles exist - and leaves the others)", i+1, len(sigs), want)
 			return "", orig
 		}
 		s := sigs[0]
+		for _, cand := range sigs {
+			if role != "" && cand.SigInfo == role {
+				s = cand
+			}
+		}
+		if role != "" && s.SigInfo != role {
+			rp.fail(c, "signature-count", x, "round %d: no signature in the slot of role %q (found %d signatures)", i+1, role, len(sigs))
+			return "", orig
+		}
 		if s.X509Signature != nil {
 			if !bytes.Equal(s.X509Signature.Certificate.Raw, ki.Leaf.Cert.Raw) {
 				rp.fail(c, "names-wrong-cert", x, "round %d: signature names %q, configured certificate is %q", i+1, s.X509Signature.Certificate.Subject, ki.Leaf.Cert.Subject)
